@@ -42,7 +42,7 @@ VARIABLES n, minPts, maxIter,
           idx,       \* 1-based position of the for loop over clusters
           best,      \* [imp, thr, parent, c1, c2]  (parent = 0: best_split is None)
           log,       \* ghost: every oracle consultation, in call order (the replay script)
-          splits,    \* ghost: every accepted split [parent, ids, c1, c2]
+          splits,    \* ghost: every accepted split [it, parent, ids, c1, c2]
           labels,    \* point -> label after Finalize (<<>> before)
           K,         \* n_clusters_ (-1 before Finalize)
           query, pred
@@ -119,7 +119,7 @@ EvaluateWith(imp, thr, c1) ==
        IN  /\ c1 \subseteq C
            /\ (~asked => c1 = {})          \* predict not called: no partition to choose
            /\ best' = IF ok THEN [imp |-> imp, thr |-> thr, parent |-> idx, c1 |-> c1, c2 |-> c2] ELSE best
-           /\ log' = Append(log, [pos |-> idx, ids |-> C, imp |-> imp, thr |-> thr,
+           /\ log' = Append(log, [it |-> iter, pos |-> idx, ids |-> C, imp |-> imp, thr |-> thr,
                                   asked |-> asked, c1 |-> c1])
     /\ idx' = idx + 1
     /\ UNCHANGED <<n, minPts, maxIter, pc, clusters, iter, splits, labels, K, query, pred>>
@@ -141,7 +141,7 @@ AcceptBest ==
     /\ pc = "for" /\ idx = Len(clusters) + 1
     /\ best.parent # 0
     /\ clusters' = Pop(clusters, best.parent) \o << best.c1, best.c2 >>
-    /\ splits' = Append(splits, [parent |-> best.parent, ids |-> clusters[best.parent],
+    /\ splits' = Append(splits, [it |-> iter, parent |-> best.parent, ids |-> clusters[best.parent],
                                  c1 |-> best.c1, c2 |-> best.c2])
     /\ pc' = "while"
     /\ UNCHANGED <<n, minPts, maxIter, iter, idx, best, log, labels, K, query, pred>>
